@@ -34,6 +34,9 @@ var registry = map[string]*PropDef{
 			{Pkg: "internal/object", Func: "VP_C01_RoundTrip", Quick: map[string]int{"payload": 6, "shortReads": 1}, Thorough: map[string]int{"payload": 48, "shortReads": 1}, Share: 1.00},
 			{Pkg: "internal/object", Func: "VP_C01_Header", Quick: map[string]int{"sizedigits": 10, "rest": 2}, Thorough: map[string]int{"sizedigits": 18, "rest": 4}, Share: 1.00},
 			{Pkg: "internal/object", Func: "VP_C01_Idempotent", Quick: map[string]int{"payload": 3}, Thorough: map[string]int{"payload": 8}, Share: 1.00},
+			// the same kernels with SHA-1 as a free function (20 fresh bytes per application + Ackermann axioms) instead of the pseudo-digest
+			{Pkg: "internal/object", Func: "VP_C01_RoundTrip", Quick: map[string]int{"payload": 4, "shortReads": 1, "freeDigest": 1}, Thorough: map[string]int{"payload": 16, "shortReads": 1, "freeDigest": 1}, Share: 1.00},
+			{Pkg: "internal/object", Func: "VP_C01_Idempotent", Quick: map[string]int{"payload": 2, "freeDigest": 1}, Thorough: map[string]int{"payload": 3, "freeDigest": 1}, Share: 1.00},
 			{Pkg: "cmd", Func: "VP_C01_Cli", Quick: map[string]int{"payload": 3}, Thorough: map[string]int{"payload": 10}, Share: 1.00},
 		},
 		QuickBudget: 10 * time.Minute, ThoroughBudget: 45 * time.Minute, Assumptions: commonAssumptions,
@@ -42,7 +45,9 @@ var registry = map[string]*PropDef{
 		Harnesses: []HarnessDef{
 			{Pkg: "cmd", Func: "VP_C02_WriteTree", Quick: map[string]int{"entries": 3, "depth": 2, "complen": 1, "symhash": 0}, Thorough: map[string]int{"entries": 4, "depth": 2, "complen": 2, "symhash": 0}, Share: 1.00},
 			{Pkg: "cmd", Func: "VP_C02_WriteTree", Quick: map[string]int{"entries": 2, "depth": 2, "complen": 2, "symhash": 0}, Thorough: map[string]int{"entries": 3, "depth": 3, "complen": 2, "symhash": 1}, Share: 1.00},
+			{Pkg: "cmd", Func: "VP_C02_WriteTree", Quick: map[string]int{"entries": 2, "depth": 2, "complen": 1, "symhash": 1, "freeDigest": 1}, Thorough: map[string]int{"entries": 2, "depth": 2, "complen": 1, "symhash": 1, "freeDigest": 1}, Share: 1.00},
 			{Pkg: "cmd", Func: "VP_C02_Branches", Quick: map[string]int{"namelen": 1, "branches": 3}, Thorough: map[string]int{"namelen": 2, "branches": 3}, Share: 1.00},
+			{Pkg: "cmd", Func: "VP_C02_Identity", Quick: map[string]int{"namelen": 2, "msglen": 2}, Thorough: map[string]int{"namelen": 3, "msglen": 3}, Share: 1.00},
 			{Pkg: "cmd", Func: "VP_C02_Commit", Quick: map[string]int{"files": 2, "depth": 2, "complen": 1, "msglen": 1, "content": 1}, Thorough: map[string]int{"files": 2, "depth": 2, "complen": 2, "msglen": 3, "content": 2}, Share: 1.00},
 		},
 		QuickBudget: 10 * time.Minute, ThoroughBudget: 45 * time.Minute, Assumptions: commonAssumptions,
@@ -50,6 +55,7 @@ var registry = map[string]*PropDef{
 	"C03": {
 		Harnesses: []HarnessDef{
 			{Pkg: "cmd", Func: "VP_C03_Step", Quick: map[string]int{"prefixes": 4}, Thorough: map[string]int{"prefixes": 5}, Share: 1.00},
+			{Pkg: "cmd", Func: "VP_C03_SharedFanout", Quick: map[string]int{}, Thorough: map[string]int{}, Share: 1.00},
 			{Pkg: "cmd", Func: "VP_C03_Two", Quick: map[string]int{"prefixes": 3, "prefixmin": 2, "symids": 0}, Thorough: map[string]int{"prefixes": 4, "prefixmin": 0, "symids": 0}, Share: 1.00},
 		},
 		QuickBudget: 10 * time.Minute, ThoroughBudget: 45 * time.Minute, Assumptions: commonAssumptions,
@@ -67,6 +73,7 @@ var registry = map[string]*PropDef{
 	"C05": {
 		Harnesses: []HarnessDef{
 			{Pkg: "cmd", Func: "VP_C05_TreeRoundTrip", Quick: map[string]int{"entries": 2, "depth": 2, "complen": 2, "symhash": 1}, Thorough: map[string]int{"entries": 4, "depth": 2, "complen": 2, "symhash": 0}, Share: 1.00},
+			{Pkg: "cmd", Func: "VP_C05_TreeRoundTrip", Quick: map[string]int{"entries": 2, "depth": 2, "complen": 1, "symhash": 1, "freeDigest": 1}, Thorough: map[string]int{"entries": 2, "depth": 2, "complen": 1, "symhash": 1, "freeDigest": 1}, Share: 1.00},
 			{Pkg: "cmd", Func: "VP_C05_Cli", Quick: map[string]int{"files": 2, "depth": 2, "complen": 1}, Thorough: map[string]int{"files": 2, "depth": 2, "complen": 2}, Share: 1.00},
 		},
 		QuickBudget: 10 * time.Minute, ThoroughBudget: 45 * time.Minute, Assumptions: commonAssumptions,
@@ -136,6 +143,7 @@ var registry = map[string]*PropDef{
 	},
 	"C13": {
 		Harnesses: []HarnessDef{
+			{Pkg: "cmd", Func: "VP_C13_Ignore", Quick: map[string]int{"complen": 1}, Thorough: map[string]int{"complen": 2}, Share: 1.00},
 			{Pkg: "cmd", Func: "VP_C13_KindChange", Quick: map[string]int{"complen": 1, "depth": 2}, Thorough: map[string]int{"complen": 2, "depth": 2}, Share: 1.00},
 			{Pkg: "cmd", Func: "VP_C13_Status", Quick: map[string]int{"tracked": 2, "depth": 2, "complen": 2, "deepcomplen": 1, "contentfixed": 1, "asym": 1, "udepth": 1}, Thorough: map[string]int{"tracked": 2, "depth": 2, "complen": 2}, Share: 1.00},
 		},
@@ -150,13 +158,13 @@ var registry = map[string]*PropDef{
 	},
 	"C15": {
 		Harnesses: []HarnessDef{
-			{Pkg: "cmd", Func: "VP_C15_Crash", Quick: map[string]int{"scenarios": 26, "maxmut": 40}, Thorough: map[string]int{"scenarios": 26, "maxmut": 40}, Share: 1.00},
+			{Pkg: "cmd", Func: "VP_C15_Crash", Quick: map[string]int{"scenarios": 32, "maxmut": 40}, Thorough: map[string]int{"scenarios": 32, "maxmut": 40}, Share: 1.00},
 		},
 		QuickBudget: 10 * time.Minute, ThoroughBudget: 45 * time.Minute, Assumptions: commonAssumptions,
 	},
 	"C16": {
 		Harnesses: []HarnessDef{
-			{Pkg: "cmd", Func: "VP_C16_Fault", Quick: map[string]int{"scenarios": 26, "maxops": 60}, Thorough: map[string]int{"scenarios": 26, "maxops": 60}, Share: 1.00},
+			{Pkg: "cmd", Func: "VP_C16_Fault", Quick: map[string]int{"scenarios": 32, "maxops": 120}, Thorough: map[string]int{"scenarios": 32, "maxops": 120}, Share: 1.00},
 		},
 		QuickBudget: 10 * time.Minute, ThoroughBudget: 45 * time.Minute, Assumptions: commonAssumptions,
 	},
